@@ -207,7 +207,7 @@ func Directed(s S) []any {
 		for _, k := range []string{"minLength", "maxLength"} {
 			if b, ok := s[k].(float64); ok {
 				for d := -1; d <= 1; d++ {
-					if n := int(b) + d; n >= 0 {
+					if n := int(b) + d; n >= 0 && b < 4096 {
 						add(lift(strOf(n)))
 					}
 				}
@@ -216,7 +216,7 @@ func Directed(s S) []any {
 		for _, k := range []string{"minItems", "maxItems"} {
 			if b, ok := s[k].(float64); ok {
 				for d := -1; d <= 1; d++ {
-					if n := int(b) + d; n >= 0 {
+					if n := int(b) + d; n >= 0 && b < 4096 {
 						a := make([]any, n)
 						for i := range a {
 							a[i] = float64(i)
@@ -229,7 +229,7 @@ func Directed(s S) []any {
 		for _, k := range []string{"minProperties", "maxProperties"} {
 			if b, ok := s[k].(float64); ok {
 				for d := -1; d <= 1; d++ {
-					if n := int(b) + d; n >= 0 {
+					if n := int(b) + d; n >= 0 && b < 4096 {
 						o := S{}
 						for i := 0; i < n; i++ {
 							o[string(rune('a'+i))] = float64(i)
